@@ -12,6 +12,30 @@ pub fn vpanic() -> !
 pub fn vpanic_intended() -> !
 { panic!() }
 
+/// rule R5c: `res.unwrap_or_else(|_| panic!(..))`
+pub trait VResultExt<T, E>: Sized {
+    spec fn as_result(self) -> Result<T, E>;
+
+    /// the panic is intended behaviour: execution continues only in the Ok case
+    fn vunwrap_or_panic(self) -> (t: T)
+        ensures self.as_result() == Ok::<T, E>(t);
+
+    /// the panic must be unreachable
+    fn vunwrap_or_vpanic(self) -> (t: T)
+        requires self.as_result() is Ok,
+        ensures self.as_result() == Ok::<T, E>(t);
+}
+
+impl<T, E> VResultExt<T, E> for Result<T, E> {
+    open spec fn as_result(self) -> Result<T, E> { self }
+
+    #[verifier::external_body]
+    fn vunwrap_or_panic(self) -> (t: T) { match self { Ok(t) => t, Err(_) => panic!() } }
+
+    #[verifier::external_body]
+    fn vunwrap_or_vpanic(self) -> (t: T) { match self { Ok(t) => t, Err(_) => panic!() } }
+}
+
 #[derive(PartialEq, Eq, Clone, Copy, Structural)]
 pub enum ErrorKind { NotFound, PermissionDenied, ConnectionRefused, ConnectionReset, ConnectionAborted, NotConnected,
     AddrInUse, AddrNotAvailable, BrokenPipe, AlreadyExists, WouldBlock, InvalidInput, InvalidData, TimedOut, WriteZero,
@@ -95,6 +119,7 @@ impl Instant {
 
     #[verifier::external_body]
     pub fn elapsed(&self) -> (r: Duration)
+        ensures r.ns() == (if now_spec() >= self.t() { now_spec() - self.t() } else { 0 }),
     { unimplemented!() }
 }
 
